@@ -12,11 +12,15 @@ pub struct C08Checker {
     before_set: Option<(String, Outputs)>,
     ever_faulted: bool,
     errors_seen: u64,
+    /// every accepted set_preference, in order: "a fresh session" is a new thread on the same files that is given
+    /// the same successful preference calls
+    accepted: Vec<(String, String)>,
+    no_user_dir: bool,
 }
 
 impl C08Checker {
-    pub fn new(_t: &Trace, _s: usize) -> C08Checker {
-        C08Checker { before_set: None, ever_faulted: false, errors_seen: 0 }
+    pub fn new(t: &Trace, _s: usize) -> C08Checker {
+        C08Checker { before_set: None, ever_faulted: false, errors_seen: 0, accepted: vec![], no_user_dir: !t.world.user_config_dir }
     }
 
     /// after an error the library is still usable: a valid expression set next yields what a fresh session yields
@@ -65,10 +69,33 @@ impl C08Checker {
                     "recovery-mismatch",
                     format!("{} after {} differs from a fresh session", name, after),
                     format!("{} differs from a fresh session", name),
-                    format!("session: {}\nfresh session: {}\npreferences given to the fresh session: {:?}\nreference set-up errors: {:?}", got.short(), exp.short(), prefs, r.setup_errors),
+                    format!("session: {}\nfresh session: {}\npreferences given to the fresh session: {:?}\nreference set-up errors: {:?}", got.short(), exp.short(), r.applied, r.setup_errors),
                 );
                 return;
             }
+        }
+        // ... and the preference values themselves are what the files and the accepted calls imply (an error must not
+        // leave a preference pinned, dropped or half-changed). Preferences MathCAT writes itself are exempt.
+        if !self.ever_faulted && prefs.iter().all(|(n, v)| n != "CheckRuleFiles" || v != "None") {
+            let names = pref_names(&s.ctx.base);
+            let snap: std::collections::BTreeMap<String, String> = s.read_prefs(&names).into_iter().collect();
+            let accepted = self.accepted.clone();
+            let rp = reference_prefs(s, &fs, &dir, &accepted, &names, !self.no_user_dir);
+            for (n, v) in &snap {
+                if ["DecimalSeparators", "BlockSeparators", "LanguageAuto", "NavMode"].contains(&n.as_str()) {
+                    continue;
+                }
+                if rp.get(n) != Some(v) {
+                    s.violation_g(
+                        "state-not-reproducible",
+                        "a preference value differs from a fresh session with the same files and the same accepted set_preference calls".into(),
+                        "preference differs from a fresh session with the same files and accepted calls".into(),
+                        format!("{}: session {:?}, fresh session {:?}\naccepted calls replayed: {:?}", n, v, rp.get(n), accepted),
+                    );
+                    return;
+                }
+            }
+            s.probe("preferences_like_fresh_session");
         }
         s.probe("recovered_like_fresh_session");
     }
@@ -96,6 +123,9 @@ impl Checker for C08Checker {
         if res.is_err() {
             self.errors_seen += 1;
             s.probe("api_error_seen");
+        }
+        if let (Op::SetPref(n, v), Res::Ok(_)) = (op, res) {
+            self.accepted.push((n.clone(), v.clone()));
         }
         if let (Op::SetMathml(_), Res::Err(_), Some((_, before))) = (op, res, self.before_set.clone()) {
             // (iii) a failed set_mathml keeps the previous expression and its outputs
@@ -256,7 +286,27 @@ pub fn random_trace(seed: u64, names: &[String], fault_files: &[String]) -> Trac
     }
     let n = rng.range(5, 120);
     let mut since_recover = 0;
+    let with_pref_files = !with_faults && rng.chance(0.12);
     for _ in 0..n {
+        if with_pref_files && rng.chance(0.05) {
+            s.push(Step::Env(EnvEvent::Clock { ms: rng.range(1, 5000) as u64 }));
+            // one to three changes before the session makes its next call (it sees them all at once)
+            for _ in 0..rng.range(1, 3) {
+                let ev = match rng.below(3) {
+                    0 => EnvEvent::Touch { path: format!("{}/prefs.yaml", MOUNT_A) },
+                    1 => {
+                        let language = if rng.chance(0.3) { format!("    Language: {}\n", rng.pick(&["en", "es", "sv", "Auto"])) } else { String::new() };
+                        EnvEvent::WriteUserPrefs { content: format!("---\n  Speech:\n{}    Verbosity: {}\n    SpeechStyle: {}\n  Braille:\n    BrailleCode: \"{}\"\n", language, rng.pick(pools::VERBOSITY), rng.pick(pools::SPEECH_STYLES), rng.pick(&["Nemeth", "UEB", "CMU"])) }
+                    }
+                    _ => {
+                        let (name, value) = valid_file_pref(&mut rng);
+                        EnvEvent::EditSysPref { mount: MOUNT_A.into(), name, value }
+                    }
+                };
+                s.push(Step::Env(ev));
+            }
+            continue;
+        }
         if with_faults && rng.chance(0.04) {
             let f = rng.pick(fault_files).clone();
             let kinds = crate::faults::file_fault_kinds();
@@ -354,6 +404,41 @@ pub fn directed(names: &[String]) -> Vec<Trace> {
         }
         steps.push(rec(ename));
         v.push(mk(format!("error-repeated-{}", ename), steps));
+    }
+    // 2c. failed preference requests, then the preference files change those very preferences, then recovery
+    {
+        let mut steps = vec![Step::Call(Op::SetRulesDir(MOUNT_A.into())), Step::Call(Op::SetMathml(ExprRef::Pool(3)))];
+        for (n, val) in [("Language", "zh"), ("AutoZoomOut", "maybe"), ("Overview", "yes"), ("BrailleCode", "NoSuchCode"), ("LanguageAuto", "Auto")] {
+            steps.push(Step::Call(Op::SetPref(n.into(), val.into())));
+        }
+        steps.push(Step::Env(EnvEvent::Clock { ms: 1000 }));
+        for (n, val) in [("Language", "es"), ("AutoZoomOut", "false"), ("Overview", "true"), ("BrailleCode", "\"UEB\"")] {
+            steps.push(Step::Env(EnvEvent::EditSysPref { mount: MOUNT_A.into(), name: n.into(), value: val.into() }));
+        }
+        steps.push(rec("failed set_preference followed by a change of the preference files"));
+        v.push(mk("failed-sets-then-pref-files-change".into(), steps));
+    }
+    // 2d. the preference files change several file-selecting preferences at once (the session sees one re-read), also while
+    //     LanguageAuto (held by the API only) names the language in use
+    for (name, pre_sets, edits) in [
+        ("language-and-style", vec![], vec![("Language", "es"), ("SpeechStyle", "SimpleSpeak")]),
+        ("language-style-and-braille-code", vec![], vec![("Language", "sv"), ("SpeechStyle", "SimpleSpeak"), ("BrailleCode", "\"UEB\"")]),
+        ("style-while-languageauto", vec![("LanguageAuto", "es")], vec![("SpeechStyle", "SimpleSpeak")]),
+        ("language-to-auto-while-languageauto", vec![("Language", "sv"), ("Language", "Auto"), ("LanguageAuto", "es"), ("Language", "sv")], vec![("Language", "Auto"), ("SpeechStyle", "SimpleSpeak")]),
+        ("verbosity-and-style", vec![("Verbosity", "Terse")], vec![("Verbosity", "Verbose"), ("SpeechStyle", "SimpleSpeak")]),
+    ] {
+        let mut steps = vec![Step::Call(Op::SetRulesDir(MOUNT_A.into()))];
+        for (n, val) in pre_sets {
+            steps.push(Step::Call(Op::SetPref(n.into(), val.into())));
+        }
+        steps.push(Step::Call(Op::SetMathml(ExprRef::Pool(3))));
+        steps.push(Step::Call(Op::Speech));
+        steps.push(Step::Env(EnvEvent::Clock { ms: 1000 }));
+        for (n, val) in edits {
+            steps.push(Step::Env(EnvEvent::EditSysPref { mount: MOUNT_A.into(), name: n.into(), value: val.into() }));
+        }
+        steps.push(rec("a change of several preferences in the preference files"));
+        v.push(mk(format!("pref-files-change-{}", name), steps));
     }
     // 3. every preference name x value class (one trace per name; a panic anywhere is the violation)
     let values = ["true", "FALSE", "1.5", "NaN", "", " ", "Auto", "maybe", "\u{a0}", "0", "-1e400", "[]"];
